@@ -341,6 +341,7 @@ public:
     assert(info.cur.get() != nullptr);
     auto next = info.cur->next.load(std::memory_order_relaxed);
     guard_ptr tmp_guard;
+    XENIUM_VERIF_POINT("harris_michael_hash_map.iterator_inc.before_acquire");
     // (1) - this acquire-load synchronizes-with the release-CAS (8, 9, 10, 12, 15)
     while (next.mark() == 0 && !tmp_guard.acquire_if_equal(info.cur->next, next, std::memory_order_acquire)) {
       // cur->next has changed, but cur is not marked (e.g. a node was inserted right behind cur) -> retry with the new value
